@@ -13,6 +13,7 @@ from typing import (
     Union,
     cast
 )
+import html
 import re
 from pathlib import Path
 import xml.etree.ElementTree as ET  # for general XML parsing
@@ -398,24 +399,32 @@ def scan_lexicons(source: AnyPath) -> list[ScanInfo]:
     source = Path(source).expanduser()
     infos: list[ScanInfo] = []
 
-    lex_re = re.compile(b'<(Lexicon|LexiconExtension|Extends)\\b([^>]*)>', flags=re.M)
-    attr_re = re.compile(b'''\\b(id|version|label)=["']([^"']+)["']''', flags=re.M)
+    # quoted attribute values may contain '>' and the other quote character
+    lex_re = re.compile(
+        b'<(Lexicon|LexiconExtension|Extends)\\b'
+        b'((?:[^>"\']|"[^"]*"|\'[^\']*\')*)>'
+    )
+    attr_re = re.compile(b'([^\\s=]+)\\s*=\\s*(?:"([^"]*)"|\'([^\']*)\')')
+    comment_re = re.compile(b'<!--.*?-->', flags=re.S)
 
     with open(source, 'rb') as fh:
-        for m in lex_re.finditer(fh.read()):
+        for m in lex_re.finditer(comment_re.sub(b'', fh.read())):
             lextype, remainder = m.groups()
             attrs = {
-                _m.group(1).decode("utf-8"): _m.group(2).decode("utf-8")
+                _m.group(1).decode("utf-8"): _attribute_value(
+                    (_m.group(2) if _m.group(2) is not None else _m.group(3))
+                    .decode("utf-8")
+                )
                 for _m in attr_re.finditer(remainder)
             }
+            if 'id' not in attrs or 'version' not in attrs:
+                raise LMFError(f'<{lextype.decode("utf-8")}> missing id or version')
             info: ScanInfo = {
                 "id": attrs["id"],
                 "version": attrs["version"],
                 "label": attrs.get("label"),
                 "extends": None,
             }
-            if 'id' not in info or 'version' not in info:
-                raise LMFError(f'<{lextype.decode("utf-8")}> missing id or version')
             if lextype != b'Extends':
                 infos.append(info)
             elif len(infos) > 0:
@@ -427,6 +436,13 @@ def scan_lexicons(source: AnyPath) -> list[ScanInfo]:
                 raise LMFError('invalid use of <Extends> in WN-LMF file')
 
     return infos
+
+
+def _attribute_value(raw: str) -> str:
+    """Return an attribute value as an XML parser reports it: literal
+    whitespace characters become spaces and character and entity
+    references are replaced."""
+    return html.unescape(re.sub('[\t\n\r]', ' ', raw))
 
 
 _Elem = dict[str, Any]  # basic type for the loaded XML data
